@@ -62,7 +62,7 @@ EXPECTED_PROBES = ["push-buffer_output-overflow", "push-buffer_input-overflow", 
                    "element-with-both-interfaces", "run-element-with-reset-method-unasked",
                    "run-element-with-reset-method-asked", "deep-copied-adapter",
                    "element-with-request-and-compute", "element-with-renamed-methods",
-                   "second-live-adapter"]
+                   "second-live-adapter", "request-returns-the-elements-own-list"]
 
 BUDGET = 200000
 
@@ -134,6 +134,23 @@ class ProbeFRR(ProbeFCR):
         return ProbeFCR.compute(self)
 
     compute = None
+
+
+class ProbeFRRList(ProbeFRR):
+    """request() returns a list, the element's own: it is filled anew in place by the next
+    request and emptied by reset (what was handed out earlier must have been taken by then)"""
+
+    def __init__(self, *args, **kwargs):
+        ProbeFRR.__init__(self, *args, **kwargs)
+        self._out = []
+
+    def request(self):
+        self._out[:] = list(ProbeFCR.compute(self))
+        return self._out
+
+    def reset(self):
+        ProbeFRR.reset(self)
+        del self._out[:]
 
 
 class ProbeFRRenamed(ProbeFRR):
@@ -290,6 +307,9 @@ def gen_scenario(tape):
     sc.fr_decoy = sc.kind == "fr" and not sc.both and tape.chance(1, 4, "request-and-compute")
     # the methods of the wrapped element have other names, given to the adapter
     sc.renamed = sc.kind == "fr" and not sc.both and not sc.fr_decoy and tape.chance(1, 5, "renamed-methods")
+    # request() of the element returns a list of its own that it changes in place later
+    sc.own_list = (sc.kind == "fr" and not sc.both and not sc.fr_decoy and not sc.renamed
+                   and tape.chance(1, 5, "request-returns-the-elements-own-list"))
     # the adapter that is driven is a deep copy
     sc.deepcopy = sc.kind in ("fc", "fr") and tape.chance(1, 5, "deep-copied-adapter")
     # a second adapter of the same kind is alive at the same time and is filled in turn with
@@ -321,6 +341,8 @@ def make_probe(sc, log):
         return ProbeFRRenamed(log, "el", sc.results, getattr(sc, "stop_at", None))
     if sc.kind == "fr" and getattr(sc, "fr_decoy", False):
         return ProbeFRRDecoy(log, "el", sc.results, getattr(sc, "stop_at", None))
+    if sc.kind == "fr" and getattr(sc, "own_list", False):
+        return ProbeFRRList(log, "el", sc.results, getattr(sc, "stop_at", None))
     if sc.kind == "fr":
         return ProbeFRR(log, "el", sc.results, getattr(sc, "stop_at", None))
     rr = getattr(sc, "run_reset", "none")
@@ -476,6 +498,9 @@ def run(tape):
     if sc.renamed:
         res.probe("element-with-renamed-methods")
         res.say("the methods of the wrapped element are called add / ask / clear")
+    if getattr(sc, "own_list", False):
+        res.probe("request-returns-the-elements-own-list")
+        res.say("request() of the wrapped element returns a list of its own, refilled in place later")
     if sc.fr_decoy:
         res.probe("element-with-request-and-compute")
         res.say("the wrapped element has request and also a compute method")
